@@ -261,8 +261,25 @@ impl<'tcx> Cx<'tcx> {
         if let Const::Unevaluated(u, _) = c {
             let di = self.defi(u.def);
             let _ = write!(o, ",\"def\":{}", di);
-            if u.promoted.is_some() {
+            if let Some(pi) = u.promoted {
                 o.push_str(",\"promoted\":true");
+                // describe the promoted body (e.g. `_1 = Network::Testnet; _0 = &_1`) so rules can see the value
+                if u.def.is_local() {
+                    let proms = tcx.promoted_mir(u.def);
+                    if pi.as_usize() < proms.len() {
+                        let pb = &proms[pi];
+                        let mut parts: Vec<String> = vec![];
+                        for bb in pb.basic_blocks.iter() {
+                            for st in bb.statements.iter() {
+                                if let StatementKind::Assign(_) = &st.kind {
+                                    parts.push(wntp!(format!("{:?}", st)));
+                                }
+                            }
+                        }
+                        let joined = parts.join("; ");
+                        let _ = write!(o, ",\"pv\":{}", jstr(&joined));
+                    }
+                }
             }
         }
         if let ty::FnDef(d, args) = t.kind() {
